@@ -153,6 +153,39 @@ Theorem mutable_message_is_stable : forall sch h id ob, heap_ok sch h -> get_obj
                step sch h1 (OMutable (PMsg (o_mid ob) (Some id)) f) = (h1, PMsg m (Some q)).
 Proof. exact ReflectLaws.mutable_message_is_stable. Qed.
 
+(* Mutable of a oneof MESSAGE member: returns the stored message when this member is the one set and holds one (heap
+   unchanged); stores a fresh message otherwise (empty oneof, another member set, wrapper holding nil); afterwards this
+   member is the one set, Get / Mutable again return the same message, and the other members are unpopulated *)
+Theorem mutable_member_is_stable : forall sch, wf sch = true -> forall h id ob, heap_ok sch h -> get_obj h id = Some ob ->
+  forall f fd j m md, field_of sch (o_mid ob) f = Some fd -> f_shape fd = Member j -> f_ty fd = TMsg m ->
+  get_msg sch (o_mid ob) = Some md ->
+  exists h1 q, step sch h (OMutable (PMsg (o_mid ob) (Some id)) f) = (h1, PMsg m (Some q)) /\
+               (forall q0, step sch h (OHas (PMsg (o_mid ob) (Some id)) f) = (h, PBool true) ->
+                           step sch h (OGet (PMsg (o_mid ob) (Some id)) f) = (h, PMsg m (Some q0)) -> q = q0 /\ h1 = h) /\
+               step sch h1 (OHas (PMsg (o_mid ob) (Some id)) f) = (h1, PBool true) /\
+               step sch h1 (OGet (PMsg (o_mid ob) (Some id)) f) = (h1, PMsg m (Some q)) /\
+               step sch h1 (OWhichOneof (PMsg (o_mid ob) (Some id)) j) = (h1, PField (Some f)) /\
+               step sch h1 (OMutable (PMsg (o_mid ob) (Some id)) f) = (h1, PMsg m (Some q)) /\
+               (forall f2 fd2, field_of sch (o_mid ob) f2 = Some fd2 -> f_shape fd2 = Member j -> f2 <> f ->
+                  step sch h1 (OHas (PMsg (o_mid ob) (Some id)) f2) = (h1, PBool false)).
+Proof. exact ReflectLaws.mutable_member_is_stable. Qed.
+
+(* ---- list elements through any valid view (a field's or a NewField variable's) ------------------------------------ *)
+Theorem list_set_get : forall sch h t r l i x e, read_list h r = Some l -> pval_to_elem t x = Some e ->
+  (in_bounds i (olen l) = true ->
+   exists h', step sch h (OLSet (PList t r) i x) = (h', PUnit) /\
+              step sch h' (OLLen (PList t r)) = (h', PScalar (VInt (Z.of_nat (olen l)))) /\
+              step sch h' (OLGet (PList t r) i) = (h', x) /\
+              (forall i', i' <> i -> snd (step sch h' (OLGet (PList t r) i')) = snd (step sch h (OLGet (PList t r) i')))) /\
+  (in_bounds i (olen l) = false -> step sch h (OLSet (PList t r) i x) = (h, PPanic)).
+Proof. exact ReflectLaws.list_set_get. Qed.
+
+Theorem list_truncate : forall sch h t r l n, read_list h r = Some l -> (0 <= n <= Z.of_nat (olen l))%Z ->
+  exists h', step sch h (OLTruncate (PList t r) n) = (h', PUnit) /\
+             step sch h' (OLLen (PList t r)) = (h', PScalar (VInt n)) /\
+             (forall i, (0 <= i < n)%Z -> snd (step sch h' (OLGet (PList t r) i)) = snd (step sch h (OLGet (PList t r) i))).
+Proof. exact ReflectLaws.list_truncate. Qed.
+
 (* ---- allocation -------------------------------------------------------------------------------------------------- *)
 (* new(T): a fresh object in which nothing is populated; no existing object changes *)
 Theorem new_message_is_empty : forall sch h mid,
